@@ -907,7 +907,13 @@ func (c *Client) q(m *spb.ModifyRequest) {
 	defer c.awaiting.RUnlock()
 
 	if !chIsClosed(c.sendExitCh) {
-		c.qs.modifyCh <- m
+		// The sender can exit between the check above and the write below, in which
+		// case nothing reads from modifyCh any longer - do not block forever (whilst
+		// holding the awaiting lock) when its buffer is full.
+		select {
+		case c.qs.modifyCh <- m:
+		case <-c.sendExitCh:
+		}
 	}
 }
 
